@@ -415,6 +415,12 @@ pub fn read_types(text: &str) -> Result<Vec<EType>, String> {
             };
             out.push(EType { attrs: std::mem::take(&mut attrs), is_pub, is_enum: false, name, variants: vec![(String::new(), fs)], def_line });
         } else if let Some(r) = rest.strip_prefix("enum ") {
+            if let Some(name) = r.strip_suffix(" {}") {
+                // a variant-less enum written on one line: the same definition
+                i += 1;
+                out.push(EType { attrs: std::mem::take(&mut attrs), is_pub, is_enum: true, name: name.to_string(), variants: vec![], def_line });
+                continue;
+            }
             let Some(name) = r.strip_suffix(" {") else { return err(format!("unrecognised enum definition line `{l}`")) };
             i += 1;
             let mut variants = vec![];
